@@ -2,6 +2,7 @@
 import collections
 
 from metapype.eml import rule as R
+from .shipped import RULES
 from metapype.eml import validate
 from metapype.eml.exceptions import MetapypeRuleError
 from metapype.model.node import Node
@@ -12,7 +13,7 @@ NEUTRAL = "zzNeutralParent"
 
 
 def rules():
-    return R.rules_dict
+    return RULES
 
 
 _rev = None
